@@ -70,6 +70,33 @@ class P(Prop):
             es, sg = G.segs(rng, ty, k)
             sb = rng.choice([C.NAN_BITS, C.NAN_BITS, 0xFFF8000000000000, 0x7FF0000000000001, C.bits(float("inf")), C.bits(float("-inf"))])
             out.append(dict(op=op, ty=ty, segs=sg, s=sb, meta={"class": op + "/unordered_scalar"}))
+        # pieces with exact zeros BELOW non-zero coefficients (even / odd polynomials, antiderivatives: constant 0), sums to zero
+        for _ in range(24 if tier == "quick" else 300):
+            op = rng.choice(["pw_mul", "pw_mul_assign", "pw_mul_assign", "pw_neg"])
+            ty = rng.choice(NEG_TYPES) if op == "pw_neg" else (rng.choice(MULASSIGN_TYPES) if op == "pw_mul_assign" else rng.choice(G.ALL_TYPES))
+            k = rng.randint(1, 4)
+            es, sg = G.segs(rng, ty, k)
+            sg = [list(s_) for s_ in sg]
+            for s_ in sg:
+                st = rng.choice(["even", "odd", "const0", "zero_sum"])
+                m = len(s_) - 1
+                for j in range(m):
+                    if (st == "even" and j % 2 == 1) or (st == "odd" and j % 2 == 0) or (st == "const0" and j == 0):
+                        s_[1 + j] = C.bits(rng.choice([0.0, 0.0, -0.0]))
+                if st == "zero_sum" and m >= 2:
+                    vals = [0.0] * m
+                    a_, b_ = rng.sample(range(m), 2)
+                    vals[a_], vals[b_] = 2.5, -2.5
+                    for j in range(m):
+                        s_[1 + j] = C.bits(vals[j])
+            out.append(dict(op=op, ty=ty, segs=sg, s=C.bits(rng.choice([2.0, -0.5, 3.25, 0.0, rng.uniform(-3, 3)])), meta={"class": op + "/sparse_pieces"}))
+        # EVERY piece type with a non-finite shift and a non-finite scale
+        for ty in G.ALL_TYPES:
+            es, sg = G.segs(rng, ty, rng.randint(1, 3))
+            sb = rng.choice([C.NAN_BITS, C.bits(float("inf")), C.bits(float("-inf"))])
+            out.append(dict(op="pw_translate", ty=ty, segs=sg, s=sb, meta={"class": "pw_translate/unordered_scalar_all_types"}))
+            if ty in MULASSIGN_TYPES:
+                out.append(dict(op="pw_mul_assign", ty=ty, segs=sg, s=sb, meta={"class": "pw_mul_assign/unordered_scalar_all_types"}))
         for k in (17, 33, 64, 65, 100):
             for op in ("pw_mul", "pw_mul_assign", "pw_neg", "pw_translate"):
                 ty = "Poly2"
